@@ -92,6 +92,9 @@ type Spec struct {
 	// MaxJobs > 0: cluster mode with a real RemoteJobManager and this --maxjobs;
 	// the driver plays the cluster (submitted jobs survive mrp).
 	MaxJobs int `json:"maxjobs"`
+	// VdrGate: asynchronous cleanup goroutines wait at VdrBegin until the script
+	// releases them ("V:<fork fqname>"), or until the run is over.
+	VdrGate bool `json:"vdr_gate"`
 }
 
 // Result is what a run reports besides its trace.
@@ -154,6 +157,8 @@ type Driver struct {
 	filePath  map[string]string // file key -> canonical path it was written to
 	fileJob   map[string]string // file key -> writing job
 	extras    map[string]string // job key -> unreferenced file it wrote
+	aliasOf   map[string]string // pass-through link -> the file it points at
+	outsideOf map[string]bool   // files whose reported name is not below the pipestance path
 	tmps      map[string]string // job key -> temporary file it wrote
 	goid      string
 	jrng      *rand.Rand
@@ -162,6 +167,8 @@ type Driver struct {
 	removed   vdrTotals
 	inflight  int // cluster jobs submitted and not finished
 	tmplPath  string
+	gates     map[string][]chan struct{} // fork fqname -> cleanup goroutines waiting
+	gatesOpen bool
 }
 
 type vdrTotals struct {
@@ -237,12 +244,25 @@ func (d *Driver) hook(ev string, kv ...string) {
 		d.fmu.Lock()
 		d.vdrBegin++
 		var wait time.Duration
-		if d.spec.VdrJitter > 0 && goid() != d.goid {
+		async := goid() != d.goid
+		if d.spec.VdrJitter > 0 && async {
 			wait = time.Duration(d.jrng.Intn(d.spec.VdrJitter)) * time.Microsecond
+		}
+		var gate chan struct{}
+		if d.spec.VdrGate && async && !d.gatesOpen && len(kv) >= 2 {
+			gate = make(chan struct{})
+			d.gates[kv[1]] = append(d.gates[kv[1]], gate)
 		}
 		d.fmu.Unlock()
 		if wait > 0 {
 			time.Sleep(wait)
+		}
+		if gate != nil {
+			select {
+			case <-gate:
+			case <-time.After(5 * time.Second):
+				d.res.Notes = append(d.res.Notes, "cleanup gate of "+kv[1]+" timed out")
+			}
 		}
 	case "VdrLocked":
 		d.fmu.Lock()
@@ -453,6 +473,26 @@ func (d *Driver) writeFiles(j *job, outs interface{}) interface{} {
 				p = path.Join(dir, path.Base(p))
 			}
 		}
+		if strings.HasSuffix(f.Name, ".outside") {
+			// the stage writes the file outside the pipestance directory
+			od := path.Join(path.Dir(canon(d.psdir)), "outside")
+			os.MkdirAll(od, 0755)
+			p = path.Join(od, strings.NewReplacer("/", "_", "[", "_", "]", "_").Replace(f.Key()))
+			writeFile(p, fileContent(f.Key()))
+			d.fmu.Lock()
+			d.filePath[f.Key()] = canon(p)
+			d.fileJob[f.Key()] = j.key
+			d.outsideOf[f.Key()] = true
+			d.fmu.Unlock()
+			continue
+		}
+		if !strings.Contains(p, d.psdir) {
+			// (as mrp decides it in moveOutFile) the name the stage reports does not
+			// spell the pipestance's path: post-processing treats it as an outside file
+			d.fmu.Lock()
+			d.outsideOf[f.Key()] = true
+			d.fmu.Unlock()
+		}
 		if strings.HasSuffix(f.Name, ".missing") {
 			// the stage names a file it never wrote
 			d.fmu.Lock()
@@ -476,38 +516,26 @@ func (d *Driver) writeFiles(j *job, outs interface{}) interface{} {
 			d.tr.Emit("FileWritten", "job", j.key, "file", f.Key(), "path", d.rel(p))
 			continue
 		}
-		if strings.HasSuffix(f.Name, ".lnk") {
-			// the output is a symbolic link to a file of the stage
-			tgt := p + ".target"
-			writeFile(tgt, fileContent(f.Key()))
-			os.Symlink(path.Base(tgt), p)
+		if strings.HasSuffix(f.Name, ".plnk") {
+			// pass-through: the output is a relative symbolic link to the first file
+			// named in the stage's arguments
+			args, _ := Untag(j.inv.Args)
+			ins := FilesIn(args, nil)
+			if len(ins) == 0 {
+				panic("plink output without a file argument: " + j.key)
+			}
 			d.fmu.Lock()
-			d.filePath[f.Key()] = canon(p)
-			d.fileJob[f.Key()] = j.key
-			d.extras[j.key+"##"+f.Name] = canon(tgt)
+			tgt := d.filePath[ins[0].Key()]
 			d.fmu.Unlock()
-			d.tr.Emit("FileWritten", "job", j.key, "file", f.Key(), "path", d.rel(p))
-			continue
-		}
-		if strings.HasSuffix(f.Name, ".missing") {
-			// the stage names a file it never wrote
+			relp, err := filepath.Rel(canon(path.Dir(p)), tgt)
+			if err != nil {
+				panic(err)
+			}
+			os.Symlink(relp, p)
 			d.fmu.Lock()
 			d.filePath[f.Key()] = canon(p)
 			d.fileJob[f.Key()] = j.key
-			d.fmu.Unlock()
-			continue
-		}
-		if strings.HasSuffix(f.Name, ".lnk2") {
-			// link -> sub/link -> deep/target, all relative
-			dir := path.Dir(p)
-			os.MkdirAll(path.Join(dir, "sub", "deep"), 0755)
-			tgt := path.Join(dir, "sub", "deep", path.Base(p)+".target")
-			writeFile(tgt, fileContent(f.Key()))
-			os.Symlink(path.Join("deep", path.Base(tgt)), path.Join(dir, "sub", path.Base(p)+".l2"))
-			os.Symlink(path.Join("sub", path.Base(p)+".l2"), p)
-			d.fmu.Lock()
-			d.filePath[f.Key()] = canon(p)
-			d.fileJob[f.Key()] = j.key
+			d.aliasOf[f.Key()] = ins[0].Key()
 			d.fmu.Unlock()
 			d.tr.Emit("FileWritten", "job", j.key, "file", f.Key(), "path", d.rel(p))
 			continue
@@ -801,6 +829,30 @@ func (d *Driver) doEnv(a string) {
 	}
 }
 
+// releaseGate lets one waiting cleanup goroutine of the fork go on.
+func (d *Driver) releaseGate(fork string) bool {
+	d.fmu.Lock()
+	defer d.fmu.Unlock()
+	if q := d.gates[fork]; len(q) > 0 {
+		close(q[0])
+		d.gates[fork] = q[1:]
+		return true
+	}
+	return false
+}
+
+func (d *Driver) openGates() {
+	d.fmu.Lock()
+	d.gatesOpen = true
+	for k, q := range d.gates {
+		for _, c := range q {
+			close(c)
+		}
+		delete(d.gates, k)
+	}
+	d.fmu.Unlock()
+}
+
 func (d *Driver) findJob(key string, begun bool) int {
 	d.mu.Lock()
 	defer d.mu.Unlock()
@@ -818,8 +870,9 @@ func Run(spec *Spec, workdir string) (res *Result) {
 	res = &Result{Name: spec.Name, Execs: map[string]int{}, Ended: map[string]string{}}
 	d := &Driver{spec: spec, tr: &Trace{}, res: res, byKey: map[string]*Inv{},
 		forks: map[string]core.VerifForkInfo{}, psid: "ps",
-		filePath: map[string]string{}, fileJob: map[string]string{}, extras: map[string]string{},
-		tmps: map[string]string{}, goid: goid(), jrng: rand.New(rand.NewSource(spec.Sched.Seed + 7))}
+		filePath: map[string]string{}, fileJob: map[string]string{}, extras: map[string]string{}, aliasOf: map[string]string{}, outsideOf: map[string]bool{},
+		tmps: map[string]string{}, goid: goid(), jrng: rand.New(rand.NewSource(spec.Sched.Seed + 7)),
+		gates: map[string][]chan struct{}{}}
 	for i := range spec.Invs {
 		d.byKey[spec.Invs[i].Key()] = &spec.Invs[i]
 	}
@@ -989,6 +1042,23 @@ func (d *Driver) loop(ctx context.Context) {
 					if a == "R" || a == "S" || a == "RESTART" {
 						break
 					}
+					if a[0] == 'V' {
+						if d.releaseGate(a[2:]) {
+							d.script = append(d.script, a)
+							time.Sleep(2 * time.Millisecond) // let it take the lock
+							waited = 0
+							scriptPos++
+							continue
+						}
+						if waited < 12 {
+							waited++
+							break
+						}
+						d.res.Notes = append(d.res.Notes, "script step not possible: "+a)
+						waited = 0
+						scriptPos++
+						continue
+					}
 					if i := d.findJob(a[2:], a[0] == 'E'); i >= 0 {
 						d.doEnv(a[:2] + strconv.Itoa(i))
 						waited = 0
@@ -1070,6 +1140,7 @@ func (d *Driver) loop(ctx context.Context) {
 // finalSweep does what cmd/mrp's cleanupCompleted does (final VDR pass,
 // post-processing) and records what is left of the files stage code wrote.
 func (d *Driver) finalSweep(ctx context.Context) {
+	d.openGates()
 	var rep *core.VDRKillReport
 	if d.spec.Vdr != "" && d.spec.Vdr != "disable" {
 		rep = d.ps.VDRKill()
@@ -1194,11 +1265,25 @@ func (d *Driver) walkPost(where string, exp json.RawMessage, act interface{}) {
 			bad("expected the path %s, got %v", d.rel(want), act)
 			return
 		}
-		link := strings.HasSuffix(f.Name, ".lnk") || strings.HasSuffix(f.Name, ".lnk2")
+		// outputs that are symbolic links, and files whose reported name lies outside the
+		// pipestance, get a link under outs/ and keep their value
+		link := strings.HasSuffix(f.Name, ".lnk") || strings.HasSuffix(f.Name, ".lnk2") || strings.HasSuffix(f.Name, ".plnk") || d.outsideOf[f.Key()]
+		ckey := f.Key()
+		for {
+			a, ok := d.aliasOf[ckey]
+			if !ok {
+				break
+			}
+			ckey = a
+		}
 		if link {
 			// an output that is a symbolic link: the record names the link's
 			// destination (by design); the file must still be available under outs/
-			if b, err := os.ReadFile(want); err != nil || string(b) != string(fileContent(f.Key())) {
+			wf := want
+			if strings.HasSuffix(f.Name, ".d") {
+				wf = path.Join(want, "a.dat")
+			}
+			if b, err := os.ReadFile(wf); err != nil || string(b) != string(fileContent(ckey)) {
 				bad("the output is not available with its content at the derived location %s", d.rel(want))
 			}
 		} else if canon(s) != canon(want) {
@@ -1210,7 +1295,7 @@ func (d *Driver) walkPost(where string, exp json.RawMessage, act interface{}) {
 		}
 		if b, err := os.ReadFile(check); err != nil {
 			bad("nothing readable at the recorded location %s: %v", d.rel(s), err)
-		} else if string(b) != string(fileContent(f.Key())) {
+		} else if string(b) != string(fileContent(ckey)) {
 			bad("the content at %s is not what the stage wrote", d.rel(s))
 		}
 		if !link && !inside(canon(s), canon(path.Join(d.psdir, "outs"))) {
@@ -1343,6 +1428,7 @@ func (d *Driver) calleeOf(callPath []string) string {
 }
 
 func (d *Driver) finish(ctx context.Context) {
+	defer d.openGates()
 	res := d.res
 	if res.State == string(core.Failed) {
 		fq, _, _, log, _, _ := d.ps.GetFatalError()
